@@ -6,6 +6,7 @@ package main
 // The semantics implemented here are those of coq/model/EngineBase.v (RefStore / RefStream / RefTimeout).
 
 import (
+	"sort"
 	"math/big"
 	"sync/atomic"
 	"context"
@@ -25,7 +26,6 @@ import (
 var simBase = time.Unix(1_700_000_000, 0).UTC()
 
 var errInjectedPlain = errors.New("injected fault")
-var errInjected = errInjectedPlain
 
 // an adapter with its own per-call timeout reports failures that wrap context.DeadlineExceeded (option dl=1)
 var errInjectedDeadline = fmt.Errorf("adapter call timed out: %w", context.DeadlineExceeded)
@@ -93,6 +93,7 @@ type sim struct {
 	nextTid int64
 	now     int64
 	blind bool // the record store ignores context cancellation (option blind=1)
+	deadlineErrs bool // injected errors wrap context.DeadlineExceeded (option dl=1)
 	openReceivers, openSenders atomic.Int64 // opened and not yet closed (C11: all closed once Stop has returned)
 	stamp   bool
 	// scheduling
@@ -165,6 +166,18 @@ func (s *sim) decide(p *proc, kind string) int {
 	return dOk
 }
 
+// procList is a snapshot of the process table (processes register themselves from their own goroutines in Await)
+func (s *sim) procList() []*proc {
+	s.mu.Lock()
+	defer s.mu.Unlock()
+	l := make([]*proc, 0, len(s.procs))
+	for _, p := range s.procs {
+		l = append(l, p)
+	}
+	sort.Slice(l, func(i, j int) bool { return l[i].inst < l[j].inst || (l[i].inst == l[j].inst && l[i].role < l[j].role) })
+	return l
+}
+
 func (s *sim) loseLease(l *lease) {
 	if l.live {
 		l.live = false
@@ -177,7 +190,7 @@ func (s *sim) loseLease(l *lease) {
 
 func (s *sim) killInst(inst int) {
 	s.dead[inst] = true
-	for _, p := range s.procs {
+	for _, p := range s.procList() {
 		if p.inst == inst && p.lease != nil {
 			s.loseLease(p.lease)
 		}
@@ -216,14 +229,23 @@ func procOf(ctx context.Context) *proc {
 	return nil
 }
 
-func dispErr(d int) error {
+// injErr is the error an injected fault makes an adapter return: a plain error, or (option dl=1) one that wraps
+// context.DeadlineExceeded, as an adapter with its own per-call timeout would
+func (s *sim) injErr() error {
+	if s.deadlineErrs {
+		return errInjectedDeadline
+	}
+	return errInjectedPlain
+}
+
+func (s *sim) dispErr(d int) error {
 	switch d {
 	case dOk, dStale:
 		return nil
 	case dCancel:
 		return context.Canceled
 	default:
-		return errInjected
+		return s.injErr()
 	}
 }
 
@@ -347,7 +369,7 @@ func (st simStore) Store(ctx context.Context, r *workflow.Record) error {
 		s.outbox = append(s.outbox, outEntry{seq: s.nextOid, id: ed.ID, wf: ed.WorkflowName, data: ed.Data})
 		s.nextOid++
 	}
-	return dispErr(d)
+	return st.s.dispErr(d)
 }
 
 func (st simStore) lookupTok(kind string, key int, d int, r *workflow.Record) string {
@@ -378,7 +400,7 @@ func (st simStore) Lookup(ctx context.Context, runID string) (*workflow.Record, 
 	}
 	s.emit(p, st.lookupTok("LK", s.runN(runID), d, r))
 	if d != dOk {
-		return nil, dispErr(d)
+		return nil, st.s.dispErr(d)
 	}
 	if r == nil {
 		return nil, workflow.ErrRecordNotFound
@@ -398,7 +420,7 @@ func (st simStore) Latest(ctx context.Context, wf, fid string) (*workflow.Record
 	}
 	s.emit(p, st.lookupTok("LT", fidN(fid), d, r))
 	if d != dOk {
-		return nil, dispErr(d)
+		return nil, st.s.dispErr(d)
 	}
 	if r == nil {
 		return nil, workflow.ErrRecordNotFound
@@ -439,7 +461,7 @@ func (st simStore) ListOutboxEvents(ctx context.Context, wf string, limit int64)
 	}
 	s.emit(p, fmt.Sprintf("LO:%d=%s:%s", limit, r, strings.Join(ids, ",")))
 	if d != dOk {
-		return nil, dispErr(d)
+		return nil, st.s.dispErr(d)
 	}
 	return res, nil
 }
@@ -464,7 +486,7 @@ func (st simStore) DeleteOutboxEvent(ctx context.Context, id string) error {
 		}
 		s.outbox = keep
 	}
-	return dispErr(d)
+	return st.s.dispErr(d)
 }
 
 // ------------------------------------------------------------------ streamer
@@ -482,7 +504,7 @@ func (st simStreamer) NewSender(ctx context.Context, topic string) (workflow.Eve
 	d := s.enter(p, "NS", 0)
 	s.emit(p, fmt.Sprintf("NS:=%s:", dispRes(d)))
 	if d != dOk {
-		return nil, dispErr(d)
+		return nil, st.s.dispErr(d)
 	}
 	s.openSenders.Add(1)
 	return &simSender{s: s, p: p, topic: topic}, nil
@@ -506,7 +528,7 @@ func (sd *simSender) Send(ctx context.Context, foreignID string, statusType int,
 		}
 		s.log = append(s.log, &workflow.Event{ID: int64(len(s.log)) + 1, ForeignID: foreignID, Type: statusType, Headers: h, CreatedAt: simBase.Add(time.Duration(s.now))})
 	}
-	return dispErr(d)
+	return sd.s.dispErr(d)
 }
 
 func (sd *simSender) Close() error {
@@ -514,7 +536,7 @@ func (sd *simSender) Close() error {
 	s.openSenders.Add(-1)
 	d := s.enter(sd.p, "SC", 0)
 	s.emit(sd.p, fmt.Sprintf("SC:=%s:", dispRes(d)))
-	return dispErr(d)
+	return sd.s.dispErr(d)
 }
 
 type simReceiver struct {
@@ -530,7 +552,7 @@ func (st simStreamer) NewReceiver(ctx context.Context, topic string, name string
 	d := s.enter(p, "NR", 0)
 	s.emit(p, fmt.Sprintf("NR:=%s:", dispRes(d)))
 	if d != dOk {
-		return nil, dispErr(d)
+		return nil, st.s.dispErr(d)
 	}
 	s.openReceivers.Add(1)
 	return &simReceiver{s: s, p: p, topic: topic, name: name}, nil
@@ -552,9 +574,9 @@ func (r *simReceiver) Recv(ctx context.Context) (*workflow.Event, workflow.Ack, 
 	if d != dOk {
 		s.emit(p, fmt.Sprintf("RV:=%s:", dispRes(d)))
 		if d == dErrAfter {
-			return nil, nil, errInjected
+			return nil, nil, r.s.injErr()
 		}
-		return nil, nil, dispErr(d)
+		return nil, nil, r.s.dispErr(d)
 	}
 	idx, e := s.nextEvent(r.topic, r.name)
 	if e == nil {
@@ -572,7 +594,7 @@ func (r *simReceiver) Recv(ctx context.Context) (*workflow.Event, workflow.Ack, 
 		if d == dOk || d == dErrAfter || d == dStale {
 			s.cursors[r.name] = idx + 1
 		}
-		return dispErr(d)
+		return r.s.dispErr(d)
 	}
 	return &ev, ack, nil
 }
@@ -581,7 +603,7 @@ func (r *simReceiver) Close() error {
 	r.s.openReceivers.Add(-1)
 	d := r.s.enter(r.p, "CL", 0)
 	r.s.emit(r.p, fmt.Sprintf("CL:=%s:", dispRes(d)))
-	return dispErr(d)
+	return r.s.dispErr(d)
 }
 
 // ------------------------------------------------------------------ timeout store
@@ -596,7 +618,7 @@ func (t simTimeouts) Create(ctx context.Context, wf, fid, runID string, status i
 		s.timers = append(s.timers, workflow.TimeoutRecord{ID: s.nextTid, WorkflowName: wf, ForeignID: fid, RunID: runID, Status: status, ExpireAt: expireAt, CreatedAt: simBase.Add(time.Duration(s.now))})
 		s.nextTid++
 	}
-	return dispErr(d)
+	return t.s.dispErr(d)
 }
 
 func (t simTimeouts) Complete(ctx context.Context, id int64) error {
@@ -611,7 +633,7 @@ func (t simTimeouts) Complete(ctx context.Context, id int64) error {
 			}
 		}
 	}
-	return dispErr(d)
+	return t.s.dispErr(d)
 }
 
 func (t simTimeouts) Cancel(ctx context.Context, id int64) error {
@@ -628,7 +650,7 @@ func (t simTimeouts) Cancel(ctx context.Context, id int64) error {
 		}
 		s.timers = keep
 	}
-	return dispErr(d)
+	return t.s.dispErr(d)
 }
 
 func (t simTimeouts) List(ctx context.Context, wf string) ([]workflow.TimeoutRecord, error) {
@@ -662,7 +684,7 @@ func (t simTimeouts) ListValid(ctx context.Context, wf string, status int, now t
 	}
 	s.emit(p, fmt.Sprintf("TL:%d,%d=%s:%s", status, s.ns(now), r, strings.Join(ids, ",")))
 	if d != dOk {
-		return nil, dispErr(d)
+		return nil, t.s.dispErr(d)
 	}
 	return res, nil
 }
@@ -690,7 +712,7 @@ func (rs simRoles) Await(ctx context.Context, role string) (context.Context, con
 	}
 	s.emit(p, fmt.Sprintf("AW:=%s:", dispRes(d)))
 	if d != dOk {
-		return ctx, func() {}, errInjected
+		return ctx, func() {}, rs.s.injErr()
 	}
 	lctx, cancel := context.WithCancel(ctx)
 	l := &lease{p: p, cancel: cancel, live: true}
@@ -795,7 +817,7 @@ func (c simConnector) Make(ctx context.Context, consumerName string) (workflow.C
 	d := s.enter(p, "NR", 0)
 	s.emit(p, fmt.Sprintf("NR:=%s:", dispRes(d)))
 	if d != dOk {
-		return nil, dispErr(d)
+		return nil, c.s.dispErr(d)
 	}
 	s.openReceivers.Add(1)
 	return &simConnConsumer{s: s, p: p, topic: fmt.Sprintf("conn-%d", c.cid), name: consumerName}, nil
@@ -808,9 +830,9 @@ func (r *simConnConsumer) Recv(ctx context.Context) (*workflow.ConnectorEvent, w
 	if d != dOk {
 		s.emit(p, fmt.Sprintf("RV:=%s:", dispRes(d)))
 		if d == dErrAfter {
-			return nil, nil, errInjected
+			return nil, nil, r.s.injErr()
 		}
-		return nil, nil, dispErr(d)
+		return nil, nil, r.s.dispErr(d)
 	}
 	idx, e := s.nextEvent(r.topic, r.name)
 	if e == nil {
@@ -824,7 +846,7 @@ func (r *simConnConsumer) Recv(ctx context.Context) (*workflow.ConnectorEvent, w
 		if d == dOk || d == dErrAfter || d == dStale {
 			s.cursors[r.name] = idx + 1
 		}
-		return dispErr(d)
+		return r.s.dispErr(d)
 	}
 	return ce, ack, nil
 }
@@ -833,7 +855,7 @@ func (r *simConnConsumer) Close() error {
 	r.s.openReceivers.Add(-1)
 	d := r.s.enter(r.p, "CL", 0)
 	r.s.emit(r.p, fmt.Sprintf("CL:=%s:", dispRes(d)))
-	return dispErr(d)
+	return r.s.dispErr(d)
 }
 
 // connView prints the record by which the model's token names a connector event (Engine.v conn_view)
